@@ -126,7 +126,7 @@ func c12Ops() []string {
 	var ops []string
 	for mi := 0; mi < 3; mi++ {
 		for ri := range c12Requests() {
-			for _, h := range []string{"noop", "scribble"} {
+			for _, h := range []string{"noop", "scribble", "scribble-preset"} {
 				ops = append(ops, fmt.Sprintf("serve:m%d:r%d:%s", mi, ri, h))
 			}
 		}
@@ -140,7 +140,7 @@ func c12Ops() []string {
 func c12ReducedOps() []string {
 	var ops []string
 	for mi := 0; mi < 3; mi++ {
-		ops = append(ops, fmt.Sprintf("serve:m%d:r2:scribble", mi), fmt.Sprintf("serve:m%d:r7:scribble", mi), fmt.Sprintf("serve:m%d:r5:noop", mi),
+		ops = append(ops, fmt.Sprintf("serve:m%d:r2:scribble", mi), fmt.Sprintf("serve:m%d:r7:scribble-preset", mi), fmt.Sprintf("serve:m%d:r1:scribble", mi),
 			fmt.Sprintf("scribble-input:m%d", mi), fmt.Sprintf("config-scribble:m%d", mi), fmt.Sprintf("reconfigure-scribble:m%d", mi), fmt.Sprintf("roundtrip-scribble:m%d", mi))
 	}
 	return ops
@@ -155,11 +155,13 @@ func (w *c12World) apply(op string) error {
 		var ri int
 		fmt.Sscanf(f[2], "r%d", &ri)
 		var h http.Handler = noopHandler
-		if f[3] == "scribble" {
+		if strings.HasPrefix(f[3], "scribble") {
 			h = scribbler{}
 		}
 		rec := vlib.NewRec()
-		rec.H["Vary"] = []string{"pre"}
+		if f[3] == "scribble-preset" {
+			rec.H["Vary"] = []string{"pre"} // a Vary value set earlier in the chain (slow paths)
+		}
 		w.m[mi].Wrap(h).ServeHTTP(rec, c12Requests()[ri].HTTP())
 		// the caller owns the response header map after the call for non-preflight requests
 	case "scribble-input":
